@@ -100,6 +100,22 @@ CLAIMED = {
                      "front, and three consequences of the specification as lemmas.",
                 note=TRUST + " The sorter itself is a bounded run-time contract evaluation (stated bound), never counted as proved.",
                 tech="bounded exhaustive run-time evaluation of the contract on the real function (stand-in); deductive verification of Selector.individual and lemmas (pyvc/z3)"),
+    "C08": dict(cat="proof", ref="5/C08, 9.4",
+                text="Operator.clip, polynomial / uniform / non-uniform mutation and simulated binary crossover are verified for every box, "
+                     "parent (also on the bounds, coincident parents), probability, distribution index and iteration number: children have the "
+                     "parents' dimension, lie inside the box, and every power and division on the way is real-valued and defined (safety "
+                     "obligations). gen_number / gen_vector (random designs, 1e-12 / declared precision), the three swarm update_position variants "
+                     "and GeneticAlgorithm.generate (children inside the box) are verified as well. The composition inside the run loops and the "
+                     "DoE generators are bounded run-time checks only.",
+                note=TRUST + " Real arithmetic; pow axioms; run-level orchestration bounded (objective records every vector).",
+                tech="deductive verification: postconditions + safety obligations (division, real-valued power) over the real operators (pyvc/z3, nlsat for the polynomial side conditions); bounded run-time contracts for whole runs"),
+    "C09": dict(cat="other", ref="5/C09, 9.4",
+                text="Partial: offspring generation (exactly N pairwise different children), the eps-MOEA acceptance step (size kept, replacement "
+                     "rule), truncation elitism (C03) and exactly-once evaluation (C05/C06) are proved deductively; the run loops of NSGA-II, "
+                     "eps-MOEA, OMOPSO and SMPSO (generation tags, budgets N*G resp. N*(G+1), elitism across generations) are bounded run-time "
+                     "contracts on real runs with and without injected transient failures.",
+                note=TRUST + " Run loops are NOT proved (bounded only); partial correctness for generate().",
+                tech="deductive verification of the step functions (loop invariants, ghost results; pyvc/z3) + bounded run-time evaluation of run-level contracts"),
 }
 NA = {
     "C07": "quantifies over thread interleavings; the contract verifier has sequential semantics only and no installed tool gives "
